@@ -171,19 +171,20 @@ type Obs struct {
 }
 
 type Case struct {
-	ID     int    `json:"id"`
-	Class  string `json:"class"`
-	Proto  string `json:"proto"` // loki_json | loki_pb | prw | influx | ddlog | ddmet | otlp
-	WSeed  int64  `json:"wseed"` // every serialisation choice (layout, key order, timestamp syntax) derives from it
-	CtxTTL uint16 `json:"ctx_ttl"`
-	Split  bool   `json:"split,omitempty"` // Loki JSON: labels / entries of a stream may be spread over two members of the stream object
-	Hist   int    `json:"hist,omitempty"`  // > 0: this body is step Step of history Hist: bodies decoded one after another in this process
-	Step   int    `json:"step,omitempty"`
-	Cache  string `json:"cache,omitempty"` // "" = never-hit cache (clustered deployment); "set" = remembers every (day, fingerprint, type) of the request; "shared" = one such cache for all steps of the history
-	Body   Body   `json:"body"`
-	Wire   string `json:"wire_hex,omitempty"` // the bytes handed to the parser (only kept when small)
-	Obs    Obs    `json:"obs"`
-	NRows  int    `json:"nrows"` // number of entries submitted (for coverage accounting)
+	ID       int    `json:"id"`
+	Class    string `json:"class"`
+	Proto    string `json:"proto"` // loki_json | loki_pb | prw | influx | ddlog | ddmet | otlp
+	WSeed    int64  `json:"wseed"` // every serialisation choice (layout, key order, timestamp syntax) derives from it
+	CtxTTL   uint16 `json:"ctx_ttl"`
+	KeyOrder string `json:"key_order,omitempty"` // Loki JSON: "entries-first" / "labels-first": where the entry arrays of a stream object stand relative to its label members
+	Split    bool   `json:"split,omitempty"`     // Loki JSON: labels / entries of a stream may be spread over two members of the stream object
+	Hist     int    `json:"hist,omitempty"`      // > 0: this body is step Step of history Hist: bodies decoded one after another in this process
+	Step     int    `json:"step,omitempty"`
+	Cache    string `json:"cache,omitempty"` // "" = never-hit cache (clustered deployment); "set" = remembers every (day, fingerprint, type) of the request; "shared" = one such cache for all steps of the history
+	Body     Body   `json:"body"`
+	Wire     string `json:"wire_hex,omitempty"` // the bytes handed to the parser (only kept when small)
+	Obs      Obs    `json:"obs"`
+	NRows    int    `json:"nrows"` // number of entries submitted (for coverage accounting)
 	// number of label buffers with a __ttl_days__ label in a non-final position that reach onEntries more than once
 	TTLMulti int    `json:"ttl_multi,omitempty"`
 	Coq      string `json:"coq,omitempty"`
@@ -545,6 +546,8 @@ func run(c *Case) {
 	if c.Cut != nil {
 		if c.TreeKind == "wcase" {
 			c.TreeKind = "wfcase"
+		} else if c.TreeKind == "dcase" {
+			c.TreeKind = "dfcase" // a free-form ddtags text is read by the model's walk, not by the harness
 		} else {
 			c.CoqJ, c.TreeKind = c.Coq, "fcase"
 		}
